@@ -81,12 +81,12 @@ class SC__visit_statement(Contract):
             'reaches the rule of the class, and that rule\'s contract gives [[R]] ⊆ DA(stmt, [[ctx.env]]) with '
             'gen_stmt/term_stmt = the rule set of spec/c15.py by cases on the class')
 
-    def post(self, stmt, ctx, result):
-        return {
+    def post(self, stmt, ctx, result, old):
+        return dict(ctx_frame(ctx, old.ctx), **{
             'live': implies(live(ctx) and not term_stmt(stmt), not result.terminated),
             'da': implies(live(ctx) and not result.terminated,
                           forall_keys('NamedId', lambda k: implies(bound(result, k), in_da_stmt(stmt, ctx.env, k)))),
-        }
+        })
 
 
 class SC__visit_block(Contract):
@@ -111,12 +111,12 @@ class SC__visit_block(Contract):
                           forall_keys('NamedId', lambda k: implies(bound(env, k), in_da_prefix(block, done, ctx.env, k)))),
         }
 
-    def post(self, block, ctx, result):
-        return {
+    def post(self, block, ctx, result, old):
+        return dict(ctx_frame(ctx, old.ctx), **{
             'live': implies(live(ctx) and not term_block(block), not result.terminated),
             'da': implies(live(ctx) and not result.terminated,
                           forall_keys('NamedId', lambda k: implies(bound(result, k), in_da_block(block, ctx.env, k)))),
-        }
+        })
 
 
 class SC__visit_binding(Contract):
@@ -150,12 +150,12 @@ class SC__visit_assign(Contract):
     may_raise = ['FPySyntaxError']
     options = {'call_counts': {'SyntaxCheckInstance._visit_expr': 1}}
 
-    def post(self, stmt, ctx, result):
-        return {
+    def post(self, stmt, ctx, result, old):
+        return dict(ctx_frame(ctx, old.ctx), **{
             'live': implies(live(ctx), not result.terminated),
             'da': implies(live(ctx), forall_keys('NamedId', lambda k: implies(bound(result, k), bound(ctx.env, k) or binds(stmt.target, k)))),
             'exact': forall_keys('NamedId', lambda k: bound(result, k) == (bound(ctx.env, k) or binds(stmt.target, k))),
-        }
+        })
 
 
 class SC__visit_if1(Contract):
@@ -168,8 +168,8 @@ class SC__visit_if1(Contract):
     may_raise = ['FPySyntaxError']
     options = {'call_counts': {'SyntaxCheckInstance._visit_expr': 1}}
 
-    def post(self, stmt, ctx, result):
-        return {'da': da_unchanged(ctx, result)}
+    def post(self, stmt, ctx, result, old):
+        return dict(ctx_frame(ctx, old.ctx), **{'da': da_unchanged(ctx, result)})
 
 
 class SC__visit_for(Contract):
@@ -183,8 +183,8 @@ class SC__visit_for(Contract):
     may_raise = ['FPySyntaxError']
     options = {'call_counts': {'SyntaxCheckInstance._visit_expr': 1}}
 
-    def post(self, stmt, ctx, result):
-        return {'da': da_unchanged(ctx, result)}
+    def post(self, stmt, ctx, result, old):
+        return dict(ctx_frame(ctx, old.ctx), **{'da': da_unchanged(ctx, result)})
 
 
 class SC__visit_if(Contract):
@@ -197,14 +197,14 @@ class SC__visit_if(Contract):
     may_raise = ['FPySyntaxError']
     options = {'call_counts': {'SyntaxCheckInstance._visit_expr': 1}}
 
-    def post(self, stmt, ctx, result):
-        return {
+    def post(self, stmt, ctx, result, old):
+        return dict(ctx_frame(ctx, old.ctx), **{
             # DA(if) = DAblock(ift, V) ∩ DAblock(iff, V); TOP only if both arms terminate
             'term': implies(live(ctx) and result.terminated, term_block(stmt.ift) and term_block(stmt.iff)),
             'da': implies(live(ctx) and not result.terminated,
                           forall_keys('NamedId', lambda k: implies(bound(result, k),
                                       in_da_block(stmt.ift, ctx.env, k) and in_da_block(stmt.iff, ctx.env, k)))),
-        }
+        })
 
 
 class SC__visit_while(Contract):
@@ -217,8 +217,8 @@ class SC__visit_while(Contract):
     may_raise = ['FPySyntaxError']
     options = {'call_counts': {'SyntaxCheckInstance._visit_expr': 1}}
 
-    def post(self, stmt, ctx, result):
-        return {'da': da_unchanged(ctx, result)}
+    def post(self, stmt, ctx, result, old):
+        return dict(ctx_frame(ctx, old.ctx), **{'da': da_unchanged(ctx, result)})
 
 
 class SC__visit_context(Contract):
@@ -231,14 +231,14 @@ class SC__visit_context(Contract):
     may_raise = ['FPySyntaxError']
     options = {'call_counts': {'SyntaxCheckInstance._visit_expr': 1}}
 
-    def post(self, stmt, ctx, result):
-        return {
+    def post(self, stmt, ctx, result, old):
+        return dict(ctx_frame(ctx, old.ctx), **{
             # DA(with e as t: b) = DAblock(b, V ∪ {t})
             'term': implies(live(ctx) and result.terminated, term_block(stmt.body)),
             'da': implies(live(ctx) and not result.terminated,
                           forall_keys('NamedId', lambda k: implies(bound(result, k),
                                       in_da_block(stmt.body, ctx.env, k) or binds(stmt.target, k)))),
-        }
+        })
 
 
 class SC__visit_indexed_assign(Contract):
@@ -254,11 +254,11 @@ class SC__visit_indexed_assign(Contract):
     def inv0(self, stmt, ctx, env, done):
         return {'env': same_obj(env, ctx.env)}
 
-    def post(self, stmt, ctx, result):
-        return {
+    def post(self, stmt, ctx, result, old):
+        return dict(ctx_frame(ctx, old.ctx), **{
             'same': same_env(result, ctx.env),
             'var_checked': bound(ctx.env, stmt.var),       # xs[i] = e uses xs
-        }
+        })
 
 
 class SC__visit_assert(Contract):
@@ -270,8 +270,8 @@ class SC__visit_assert(Contract):
     modifies = ['self.free_var_args']
     may_raise = ['FPySyntaxError']
 
-    def post(self, stmt, ctx, result):
-        return {'same': same_env(result, ctx.env)}
+    def post(self, stmt, ctx, result, old):
+        return dict(ctx_frame(ctx, old.ctx), **{'same': same_env(result, ctx.env)})
 
 
 class SC__visit_effect(Contract):
@@ -284,8 +284,8 @@ class SC__visit_effect(Contract):
     may_raise = ['FPySyntaxError']
     options = {'call_counts': {'SyntaxCheckInstance._visit_expr': 1}}
 
-    def post(self, stmt, ctx, result):
-        return {'same': same_env(result, ctx.env)}
+    def post(self, stmt, ctx, result, old):
+        return dict(ctx_frame(ctx, old.ctx), **{'same': same_env(result, ctx.env)})
 
 
 class SC__visit_return(Contract):
@@ -298,9 +298,9 @@ class SC__visit_return(Contract):
     may_raise = ['FPySyntaxError']
     options = {'call_counts': {'SyntaxCheckInstance._visit_expr': 1}}
 
-    def post(self, stmt, ctx, result):
+    def post(self, stmt, ctx, result, old):
         # DA(return) = TOP: nothing to bound; the rule set says the path ends here
-        return {'terminated': result.terminated}
+        return dict(ctx_frame(ctx, old.ctx), **{'terminated': result.terminated})
 
 
 class SC__visit_pass(Contract):
@@ -309,8 +309,8 @@ class SC__visit_pass(Contract):
     returns = '_Env'
     properties = ['C15']
 
-    def post(self, stmt, ctx, result):
-        return {'same': same_env(result, ctx.env)}
+    def post(self, stmt, ctx, result, old):
+        return dict(ctx_frame(ctx, old.ctx), **{'same': same_env(result, ctx.env)})
 
     def raises(self, stmt, ctx):
         return {}
@@ -324,9 +324,9 @@ class SC__visit_var(Contract):
     properties = ['C15']
     modifies = ['self.free_var_args']
 
-    def post(self, e, ctx, result):
+    def post(self, e, ctx, result, old):
         # D3: a use that is accepted is defined on every path
-        return {'checked': bound(ctx.env, e.name) if cls_name(e.name) == 'NamedId' else self.allow_wildcard}
+        return dict(ctx_frame(ctx, old.ctx), **{'checked': bound(ctx.env, e.name) if cls_name(e.name) == 'NamedId' else self.allow_wildcard})
 
     def raises(self, e, ctx):
         return {'FPySyntaxError': (not bound(ctx.env, e.name)) if cls_name(e.name) == 'NamedId' else (not self.allow_wildcard)}
